@@ -38,11 +38,10 @@
     `min` of the two ids is its id"; for 3-sews: "the collected pairs are exactly the pairs of
     cells united by the 3-link on closed faces") — evaluated by the oracle of tools/props/c05.py on
     the real implementation (cells recomputed independently from the β arrays).  For 1-sews /
-    1-unsews of a dart of a 3-SEWN face it is in fact FALSE (known finding D13, reproduced on the
-    implementation): `vertex_id_transac` is run on the map in which that face is open, where its
-    five images are not closed under inverse, so the ids `C05_oneSew3_effect` /
-    `C05_oneUnsew3_effect` speak about need not be the smallest darts of the vertex cells and the
-    value of a vertex can be parked under a stale id;
+    1-unsews it IS proved, in Props/C05Cells.lean (`C05_oneSew3_cells`, `C05_oneUnsew3_cells`,
+    `C05_vertexId3_is_cell_min`) — since /repo e8bc83e repaired D13 (before it `vertex_id_transac`
+    did not traverse `β2∘β3`; on the open 3-sewn face the ids these theorems speak about were not
+    the smallest darts of the vertex cells and a vertex value could be parked under a stale id);
   * that chains of merges touching the SAME cell twice (ring closing; the property's proviso)
     compose to the expected value — the chain itself (`MergedPairs`) is exact, its interpretation
     is not attempted;
